@@ -80,8 +80,8 @@ def wfVal (ty : Nat → Nat → Nat) (t : Nat) : Val → Bool
   | .ip6 b => t = T.ipv6 ∧ b.length = 16
   | .fix t' n => t' = t ∧ (t = T.enum ∨ t = T.f32 ∨ t = T.i32 ∨ t = T.u32 ∨ t = T.f64 ∨ t = T.i64 ∨ t = T.u64) ∧
       n < 256 ^ (if t = T.f64 ∨ t = T.i64 ∨ t = T.u64 then 8 else 4)
-  /- whole seconds inside the two-era window [1968-01-20 03:14:08Z, 2104-02-26 09:42:24Z) -/
-  | .time u => t = T.time ∧ (-61505152 : Int) ≤ u ∧ u < 4233505344
+  /- whole seconds inside the two-era window [1968-01-20 03:14:08Z, 2104-02-25 21:42:24Z) -/
+  | .time u => t = T.time ∧ (-61505152 : Int) ≤ u ∧ u < 4233462144
   | .group as => t = T.grouped ∧ wfAVPs ty as
 def wfAVP (ty : Nat → Nat → Nat) : AVP → Bool
   | .mk c f _ v d =>
